@@ -20,8 +20,9 @@ theorem Code.after_cons (st : State) (op : Op) (ops : List Op) :
 theorem Spec.after_cons (s : Spec.State) (op : Op) (ops : List Op) :
     Spec.after s (op :: ops) = Spec.after (Spec.next s op) ops := rfl
 
-theorem Code.log_append (dedup : Bool) (st : State) (ops1 ops2 : List Op) :
-    Code.log dedup st (ops1 ++ ops2) = Code.log dedup st ops1 ++ Code.log dedup (Code.after st ops1) ops2 := by
+theorem Code.log_append (dedup idle : Bool) (st : State) (ops1 ops2 : List Op) :
+    Code.log dedup idle st (ops1 ++ ops2) =
+      Code.log dedup idle st ops1 ++ Code.log dedup idle (Code.after st ops1) ops2 := by
   induction ops1 generalizing st with
   | nil => rfl
   | cons op ops ih => simp [Code.log, ih, Code.after_cons]
@@ -71,20 +72,51 @@ theorem msgsOf_received_pubEvents (c p : ConnId) (ch msg : Bytes) (ds : List Del
     by_cases h : p = c <;> simp [received, msgsOf, List.filter, h, Event.isMsg]
   rw [h2, List.append_nil, msgsOf_received_toEvents]
 
-theorem msgsOf_received_emit (dedup : Bool) (st : State) (op : Op) (c : ConnId) :
-    msgsOf (received (Code.emit dedup st op) c) =
+/-- Events that are not `message` / `pmessage` frames contribute nothing to the message part. -/
+theorem msgsOf_received_nonmsg (c c' : ConnId) (es : List Event) (h : ∀ e ∈ es, e.isMsg = false) :
+    msgsOf (received (es.map (fun e => ((c', e) : ConnId × Event))) c) = [] := by
+  induction es with
+  | nil => rfl
+  | cons e es ih =>
+    have ih := ih (fun e' he' => h e' (List.mem_cons_of_mem _ he'))
+    have he : e.isMsg = false := h e List.mem_cons_self
+    simp only [List.map_cons, received, msgsOf] at ih ⊢
+    by_cases hc : c' = c
+    · subst hc
+      simp only [List.filter, decide_true, List.map_cons, he]
+      exact ih
+    · simp only [List.filter, hc, decide_false]
+      exact ih
+
+theorem unsubEvents_nonmsg (idle : Bool) (k : Kind) (xs : Option (List Bytes)) (results : List Ack) (n : Nat) :
+    ∀ e ∈ Code.unsubEvents idle k xs results n, e.isMsg = false := by
+  intro e he
+  unfold Code.unsubEvents at he
+  split at he
+  · cases xs with
+    | none => simp only [List.mem_singleton] at he; subst he; rfl
+    | some l =>
+      simp only [List.mem_map] at he
+      obtain ⟨_, _, rfl⟩ := he
+      rfl
+  · simp only [List.mem_map] at he
+    obtain ⟨_, _, rfl⟩ := he
+    rfl
+
+theorem msgsOf_received_emit (dedup idle : Bool) (st : State) (op : Op) (c : ConnId) :
+    msgsOf (received (Code.emit dedup idle st op) c) =
       match op with
       | .publish _ ch msg => msgBlock c ch msg (publish dedup st ch)
       | _ => [] := by
   cases op with
   | subscribe c' k xs => exact msgsOf_received_acks c c' _
-  | unsubscribe c' k xs => exact msgsOf_received_acks c c' _
+  | unsubscribe c' k xs => exact msgsOf_received_nonmsg c c' _ (unsubEvents_nonmsg _ _ _ _ _)
   | disconnect c' => rfl
   | publish p ch msg => exact msgsOf_received_pubEvents c p ch msg _
 
 /-- A connection's messages are the blocks of the history's PUBLISHes, in publish order. -/
-theorem msgs_eq_blocks (dedup : Bool) (st : State) (ops : List Op) (c : ConnId) :
-    msgsOf (received (Code.log dedup st ops) c) = (Code.blocks dedup st ops c).flatten := by
+theorem msgs_eq_blocks (dedup idle : Bool) (st : State) (ops : List Op) (c : ConnId) :
+    msgsOf (received (Code.log dedup idle st ops) c) = (Code.blocks dedup st ops c).flatten := by
   induction ops generalizing st with
   | nil => rfl
   | cons op ops ih =>
@@ -267,6 +299,7 @@ theorem isMsg_of_mem_msgsOf {es : List Event} {e : Event} (h : e ∈ msgsOf es) 
 theorem chan_of_isMsg {e : Event} (h : e.isMsg = true) : ∃ ch, e.chan? = some ch := by
   cases e with
   | ack a => cases h
+  | ackNil k n => cases h
   | message ch m => exact ⟨ch, rfl⟩
   | pmessage p ch m => exact ⟨ch, rfl⟩
   | published n => cases h
